@@ -47,6 +47,9 @@ OPS_W = (
     + ["al", "rl", "av", "uf"] * 2 + ["newv", "adj", "flag", "bulk"]
 )
 
+# coverage-guided extra engine (atheris): executions per fuzzer process, 16 processes
+FUZZ = dict(quick=0, thorough=30000)
+
 
 def budget(tier):
     if tier == "quick":
